@@ -53,6 +53,37 @@ fn closure_equiv(snap: &Snap, what: &str) -> R<(Obs, BTreeSet<String>)> {
     Ok((a, want))
 }
 
+/// a new, empty replica melds from replica i (refreshed first, so that it publishes all it holds),
+/// is reopened, and must show `want`
+fn peer_receives(w: &mut World, i: usize, want: &Obs, what: &str) -> R<()> {
+    if guard("has_staging", || w.reps[i].m.has_staging())? || w.reps[i].traveled {
+        return Ok(());
+    }
+    let _ = guard("refresh", || w.reps[i].m.refresh())?;
+    let store = HStore::new();
+    let c = match open(store.ad())? {
+        Ok(c) => c,
+        Err(e) => return viol("C09", format!("cannot open an empty replica: {}", e)),
+    };
+    let _ = guard("meld", || c.meld(&w.reps[i].m))?;
+    let fresh = match open(store.ad()) {
+        Ok(Ok(f)) => f,
+        Ok(Err(e)) => return viol("C09", format!("{}: a peer that melded the result cannot be opened: {}", what, e)),
+        Err(Fail::Panic { op, msg }) => return viol("C09", format!("{}: opening a peer that melded the result aborts in {}: {}", what, op, msg)),
+        Err(f) => return Err(f),
+    };
+    match obs(&fresh) {
+        Ok(o) => {
+            if &o != want {
+                return viol("C09", format!("{}: a peer that melded the result does not see the same durable state: {}", what, first_diff(&o, want)));
+            }
+        }
+        Err(Fail::Panic { op, msg }) => return viol("C09", format!("{}: a peer that melded the result shows a mixture ({} aborts: {})", what, op, msg)),
+        Err(f) => return Err(f),
+    }
+    Ok(())
+}
+
 struct Twin {
     op_index: usize,
     writes: usize,
@@ -123,6 +154,9 @@ fn pass1(case: &C09Case, cnt: &mut Counters, log: &mut Vec<String>, steps: &mut 
                         *cnt.entry("commits_writing_pack_and_block").or_insert(0) += 1;
                     }
                     let after = obs(&fresh_on(&fin)?.map_err(|e| Fail::Violation { prop: "C09", msg: e })?)?;
+                    if closure_equiv(&fin, "after commit")?.1.len() == model::closure(&fin).applied.len() && w.pending(i).is_empty() {
+                        peer_receives(&mut w, i, &after, "after an uninterrupted commit")?;
+                    }
                     twins.push(Twin { op_index: t, writes: nw, after, is_commit: true });
                 }
                 Op::Meld { r, from } | Op::MeldRefresh { r, from } => {
@@ -239,6 +273,9 @@ fn fault_run(case: &C09Case, tw: &Twin, k: usize, repeated: bool, cnt: &mut Coun
                 if live.doc != pre.doc {
                     return viol("C09", "retry of a failed commit changed the document".into());
                 }
+                // the durable result includes what a peer receives: a fresh replica melding from this one
+                // must arrive at the twin's state as well
+                peer_receives(&mut w, i, &tw.after, "after a failed commit and its retry")?;
                 *cnt.entry("commit_retries_checked").or_insert(0) += 1;
             }
             Op::Meld { r, from } | Op::MeldRefresh { r, from } => {
